@@ -1072,3 +1072,367 @@ def r39_roll_adjoint_of_unroll(facts):
         except (Abstain, Unsupported) as ex:
             c.unk("roll:%s" % name, where0, "outside the index algebra: %s" % ex)
     return c
+
+
+# ====================================================================================== multi-index -> flat index
+
+class _Continue(Exception):
+    pass
+
+
+class _Break(Exception):
+    pass
+
+
+class _Ret(Exception):
+    def __init__(self, v):
+        self.v = v
+
+
+class ListEval:
+    """sequential interpreter for small iterator pipelines over lists of symbolic usize values of KNOWN length"""
+
+    def __init__(self, facts):
+        self.facts = facts
+        self.steps = 0
+
+    def run(self, b, args):
+        env = {}
+        ps = [p for p in self.facts.params(b) if p.get("pat")]
+        for p, a in zip(ps, args):
+            self.bind(p["pat"], a, env)
+        try:
+            return self.ev(self.facts.root(b), env)
+        except _Ret as r:
+            return r.v
+
+    def bind(self, pat, val, env):
+        k = pat.get("k")
+        if k == "Binding":
+            env[pat["v"]] = val
+            if isinstance(pat.get("sub"), dict):
+                self.bind(pat["sub"], val, env)
+        elif k in ("Deref", "DerefPattern"):
+            self.bind(pat["sub"], val, env)
+        elif k == "Leaf":
+            if val[0] != "tup":
+                raise Abstain("tuple pattern on %s" % val[0])
+            for s in pat["subs"]:
+                self.bind(s["pat"], val[1][s["idx"]], env)
+        elif k in ("Wild", "Missing"):
+            return
+        else:
+            raise Abstain("pattern %s" % k)
+
+    def num(self, v):
+        if v[0] == "s":
+            return v[1]
+        raise Abstain("expected a number, found %s" % v[0])
+
+    def const(self, v):
+        fr = self.num(v)
+        if fr.d == Poly.const(1):
+            s_ = fr.n.single()
+            if fr.n.is_zero():
+                return 0
+            if s_ is not None and s_[1] == () and s_[0].denominator == 1:
+                return int(s_[0])
+        return None
+
+    def truth(self, v):
+        if v[0] == "b":
+            return v[1]
+        raise Abstain("condition is not decided")
+
+    def ev(self, e, env):
+        self.steps += 1
+        if self.steps > 20000:
+            raise Abstain("evaluation too long")
+        e = strip(e)
+        if not isinstance(e, dict):
+            raise Abstain("no expression")
+        k = e.get("k")
+        if k == "Literal":
+            lv = lit_value(e)
+            if isinstance(lv, bool):
+                return ("b", lv)
+            if isinstance(lv, int):
+                return ("s", Frac(lv))
+            raise Abstain("literal")
+        if k in ("VarRef", "UpvarRef"):
+            if e["v"] not in env:
+                raise Abstain("unbound variable %s" % e["v"].split("#")[0])
+            return env[e["v"]]
+        if k in ("Borrow", "Deref", "Use", "Cast", "RawBorrow"):
+            return self.ev(e["e"], env)
+        if k == "Block":
+            env2 = dict(env)
+            for s in e["stmts"]:
+                if s["s"] == "let":
+                    if s.get("init") is None:
+                        raise Abstain("let without initialiser")
+                    self.bind(s["pat"], self.ev(s["init"], env2), env2)
+                else:
+                    self.ev(s["e"], env2)
+            out = self.ev(e["e"], env2) if e.get("e") is not None else ("unit",)
+            for v in env:                      # assignments to outer variables survive the block
+                if v in env2:
+                    env[v] = env2[v]
+            return out
+        if k == "Tuple":
+            return ("tup", [self.ev(x, env) for x in e["fields"]])
+        if k == "Unary" and e.get("op") == "Not":
+            return ("b", not self.truth(self.ev(e["e"], env)))
+        if k == "LogicalOp":
+            l = self.truth(self.ev(e["l"], env))
+            if e["op"] == "And":
+                return ("b", l and self.truth(self.ev(e["r"], env)))
+            return ("b", l or self.truth(self.ev(e["r"], env)))
+        if k == "Binary":
+            l, r = self.ev(e["l"], env), self.ev(e["r"], env)
+            op = e["op"]
+            if op in ("Add", "Sub", "Mul"):
+                a, b = self.num(l), self.num(r)
+                return ("s", a + b if op == "Add" else (a - b if op == "Sub" else a * b))
+            if op in ("Eq", "Ne", "Lt", "Le", "Gt", "Ge"):
+                a, b = self.num(l), self.num(r)
+                ca, cb = self.const(l), self.const(r)
+                if ca is not None and cb is not None:
+                    return ("b", {"Eq": ca == cb, "Ne": ca != cb, "Lt": ca < cb, "Le": ca <= cb, "Gt": ca > cb, "Ge": ca >= cb}[op])
+                # a generic (non-unit) dimension symbol against the constant 1
+                sym, cst = (a, cb) if cb is not None else (b, ca)
+                if cst == 1 and op in ("Eq", "Ne") and sym.d == Poly.const(1) and len(sym.n.t) == 1 and all(x.startswith("d") for x in sym.atoms()):
+                    return ("b", op == "Ne")
+                raise Abstain("comparison `%s` not decided" % show(e)[:40])
+            raise Abstain("binary %s" % op)
+        if k == "If":
+            cond = strip(e["cond"])
+            if cond.get("k") == "Let":
+                raise Abstain("if-let")
+            if self.truth(self.ev(cond, env)):
+                return self.ev(e["then"], env)
+            return self.ev(e["else"], env) if e.get("else") is not None else ("unit",)
+        if k in ("Assign", "AssignOp"):
+            v = F.var_of(e["l"])
+            if not v or strip(e["l"]).get("k") not in ("VarRef", "UpvarRef", "Deref"):
+                raise Abstain("assignment to a place that is not a variable")
+            r = self.ev(e["r"], env)
+            if k == "Assign":
+                env[v] = r
+            else:
+                op = str(e.get("op")).replace("Assign", "")
+                a, b = self.num(env[v]), self.num(r)
+                env[v] = ("s", a + b if op == "Add" else (a - b if op == "Sub" else (a * b if op == "Mul" else None)))
+                if env[v][1] is None:
+                    raise Abstain("compound assignment %s" % op)
+            return ("unit",)
+        if k == "Continue":
+            raise _Continue()
+        if k == "Break":
+            raise _Break()
+        if k == "Return":
+            raise _Ret(self.ev(e["e"], env) if e.get("e") is not None else ("unit",))
+        if k == "Closure":
+            return ("clo", e["closure"], env)
+        if k == "Index":
+            base, i = self.ev(e["e"], env), self.ev(e["i"], env)
+            ci = self.const(i) if i[0] == "s" else None
+            if base[0] in ("lst", "it") and ci is not None and 0 <= ci < len(base[1]):
+                return base[1][ci]
+            raise Abstain("index")
+        fl = F.for_loop_parts(e)
+        if fl:
+            it, pat, body, _ = fl
+            src = self.ev(it, env)
+            if src[0] == "range":
+                items = [("s", Frac(i)) for i in range(src[1], src[2])]
+            elif src[0] in ("it", "lst"):
+                items = list(src[1])
+            else:
+                raise Abstain("loop over %s" % src[0])
+            for x in items:
+                env2 = dict(env)
+                self.bind(pat, x, env2)
+                try:
+                    self.ev(body, env2)
+                except _Continue:
+                    pass
+                except _Break:
+                    for v in env:
+                        if v in env2:
+                            env[v] = env2[v]
+                    break
+                for v in env:
+                    if v in env2:
+                        env[v] = env2[v]
+            return ("unit",)
+        if k == "Adt" and e.get("adt") == RANGE:
+            f_ = {x["name"]: self.ev(x["e"], env) for x in e["fields"]}
+            a, b = self.const(f_["start"]), self.const(f_["end"])
+            if a is None or b is None:
+                raise Abstain("symbolic range")
+            return ("range", a, b)
+        if k == "Call":
+            return self.call(e, env)
+        raise Abstain("expression kind %s" % k)
+
+    def apply(self, f, args):
+        if f[0] != "clo":
+            raise Abstain("call of %s" % f[0])
+        cb = self.facts.body(f[1])
+        env2 = dict(f[2])
+        ps = [p for p in self.facts.params(cb) if p.get("pat")]
+        for p, a in zip(ps, args):
+            self.bind(p["pat"], a, env2)
+        try:
+            return self.ev(self.facts.root(cb), env2)
+        except _Ret as r:
+            return r.v
+
+    def call(self, e, env):
+        c = callee(e) or ""
+        args = e["args"]
+        short = c.rsplit("::", 1)[-1]
+        if c in ("core::slice::<impl [T]>::iter", "core::iter::traits::collect::IntoIterator::into_iter", IT_ + "copied", IT_ + "cloned",
+                 IT_ + "by_ref", "core::ops::deref::Deref::deref", "alloc::slice::<impl [T]>::to_vec", IT_ + "collect", "core::clone::Clone::clone"):
+            v = self.ev(args[0], env)
+            if v[0] in ("lst", "it"):
+                return ("it", list(v[1]))
+            if v[0] == "range":
+                return ("it", [("s", Frac(i)) for i in range(v[1], v[2])])
+            return v
+        if c in ("core::slice::<impl [T]>::len", "alloc::vec::Vec::<T, A>::len", IT_ + "count", "core::iter::traits::exact_size::ExactSizeIterator::len"):
+            v = self.ev(args[0], env)
+            if v[0] in ("lst", "it"):
+                return ("s", Frac(len(v[1])))
+            raise Abstain("len of %s" % v[0])
+        if c == IT_ + "next":
+            target = peel(args[0])
+            v = self.ev(args[0], env)
+            if v[0] != "it":
+                raise Abstain("next on %s" % v[0])
+            if not v[1]:
+                return ("opt", None)
+            head, rest = v[1][0], v[1][1:]
+            vn = F.var_of(target)
+            if vn and vn in env:
+                env[vn] = ("it", rest)
+            return ("opt", head)
+        if c in ("core::option::Option::<T>::unwrap", "core::option::Option::<T>::expect"):
+            v = self.ev(args[0], env)
+            if v[0] == "opt" and v[1] is not None:
+                return v[1]
+            raise Abstain("unwrap of an absent value")
+        if c.startswith(IT_) and short in ("skip", "take") and len(args) == 2:
+            v = self.ev(args[0], env)
+            n = self.const(self.ev(args[1], env))
+            if v[0] != "it" or n is None or n < 0:
+                raise Abstain("%s with a symbolic count" % short)
+            return ("it", v[1][n:] if short == "skip" else v[1][:n])
+        if c == IT_ + "rev":
+            v = self.ev(args[0], env)
+            return ("it", list(reversed(v[1]))) if v[0] == "it" else (_ for _ in ()).throw(Abstain("rev on %s" % v[0]))
+        if c == IT_ + "enumerate":
+            v = self.ev(args[0], env)
+            if v[0] != "it":
+                raise Abstain("enumerate on %s" % v[0])
+            return ("it", [("tup", [("s", Frac(i)), x]) for i, x in enumerate(v[1])])
+        if c == IT_ + "zip":
+            a, b = self.ev(args[0], env), self.ev(args[1], env)
+            if a[0] != "it" or b[0] != "it":
+                raise Abstain("zip of %s and %s" % (a[0], b[0]))
+            return ("it", [("tup", [x, y]) for x, y in zip(a[1], b[1])])
+        if c == IT_ + "filter":
+            v, f = self.ev(args[0], env), self.ev(args[1], env)
+            if v[0] != "it":
+                raise Abstain("filter on %s" % v[0])
+            return ("it", [x for x in v[1] if self.truth(self.apply(f, [x]))])
+        if c == IT_ + "map":
+            v, f = self.ev(args[0], env), self.ev(args[1], env)
+            if v[0] != "it":
+                raise Abstain("map on %s" % v[0])
+            return ("it", [self.apply(f, [x]) for x in v[1]])
+        if c == IT_ + "fold":
+            v, acc, f = self.ev(args[0], env), self.ev(args[1], env), self.ev(args[2], env)
+            if v[0] != "it":
+                raise Abstain("fold on %s" % v[0])
+            for x in v[1]:
+                acc = self.apply(f, [acc, x])
+            return acc
+        if c in (IT_ + "sum", IT_ + "product"):
+            v = self.ev(args[0], env)
+            if v[0] != "it":
+                raise Abstain("%s on %s" % (short, v[0]))
+            out = Frac(0) if short == "sum" else Frac(1)
+            for x in v[1]:
+                out = out + self.num(x) if short == "sum" else out * self.num(x)
+            return ("s", out)
+        if c in ("core::ops::arith::Add::add", "core::ops::arith::Sub::sub", "core::ops::arith::Mul::mul") and len(args) == 2:
+            a, b = self.num(self.ev(args[0], env)), self.num(self.ev(args[1], env))
+            return ("s", a + b if short == "add" else (a - b if short == "sub" else a * b))
+        if c in ("core::cmp::PartialEq::eq", "core::cmp::PartialEq::ne") and len(args) == 2:
+            fake = {"k": "Binary", "op": "Eq" if short == "eq" else "Ne", "l": args[0], "r": args[1]}
+            return self.ev(fake, env)
+        if c in INDEX_FNS and len(args) == 2:
+            base, i = self.ev(args[0], env), self.ev(args[1], env)
+            ci = self.const(i) if i[0] == "s" else None
+            if base[0] in ("lst", "it") and ci is not None and 0 <= ci < len(base[1]):
+                return base[1][ci]
+            raise Abstain("index")
+        if c.endswith("saturating_sub") and len(args) == 2:
+            a, b = self.const(self.ev(args[0], env)), self.const(self.ev(args[1], env))
+            if a is None or b is None:
+                raise Abstain("saturating_sub of symbols")
+            return ("s", Frac(max(a - b, 0)))
+        cal = e.get("callee") or {}
+        if cal.get("resolved_local"):
+            b = self.facts.body(cal.get("resolved"))
+            if b is not None:
+                return self.run(b, [self.ev(a, env) for a in args])
+        raise Abstain("call of %s" % c)
+
+
+IT_ = "core::iter::traits::iterator::Iterator::"
+
+
+def r41_multi_index(facts):
+    """MULTI-INDEX: for every rank 1..4 and every pattern of unit dimensions, the flat index computed from a full multi-index is the row-major position sum_k i_k * prod_{j>k} d_j (the fold is evaluated on symbolic lists of known length in an exact algebra)"""
+    c = Ctx("R41", facts, "multi-index -> flat index is the row-major position for ranks 1..4 and all unit-dimension patterns")
+    fns = [b for b in facts.fns() if (b.get("inputs") or []) == ["&[usize]", "&[usize]"] and b.get("output") == "usize"]
+    c.floor("multi-index flattening functions (&[usize], &[usize]) -> usize", len(fns), 1)
+    for b in fns:
+        name = b.get("name")
+        where = "%s:%d" % (F.rel(b["file"]), b["sp"][0])
+        n_ok = 0
+        bad = None
+        unk = None
+        for rank in (1, 2, 3, 4):
+            for units in itertools.product((False, True), repeat=rank):
+                idx = [("s", Frac(0) if u else Frac(Poly.atom("i%d" % k))) for k, u in enumerate(units)]
+                dims = [("s", Frac(1) if u else Frac(Poly.atom("d%d" % k))) for k, u in enumerate(units)]
+                want = Frac(0)
+                for k in range(rank):
+                    term = idx[k][1]
+                    for j in range(k + 1, rank):
+                        term = term * dims[j][1]
+                    want = want + term
+                try:
+                    got = ListEval(facts).run(b, [("lst", idx), ("lst", dims)])
+                    if got[0] != "s":
+                        raise Abstain("result is %s" % got[0])
+                    if got[1].equals(want):
+                        n_ok += 1
+                    elif bad is None:
+                        bad = (rank, units, got[1], want)
+                except (Abstain, Unsupported, RecursionError) as ex:
+                    if unk is None:
+                        unk = (rank, units, str(ex))
+        inst = "flat-index:%s" % name
+        if bad is not None:
+            shape = ["1" if u else "d%d" % k for k, u in enumerate(bad[1])]
+            c.bad(inst, where, "for rank %d with dimensions [%s] the flat index is %r, but the row-major position is %r" % (bad[0], ", ".join(shape), bad[2], bad[3]))
+        elif unk is not None:
+            c.unk(inst, where, "the index computation is outside the list evaluator (rank %d: %s)" % (unk[0], unk[2]))
+        else:
+            c.ok(inst, where, "row-major position for all %d (rank, unit-dimension pattern) cases of ranks 1..4" % n_ok)
+    return c
